@@ -68,7 +68,7 @@ def run_C03(tier, seed):
     neg = [{"name": "first_chunk_only", "loop": False, "whole": False, "expect": "C03"},
            {"name": "loop_without_whole_batch_consistency", "loop": True, "whole": False, "expect": "C03"}]
     # every behaviour at model scale on both groups, then with every model chunk expanded to the real chunk size
-    a = stages.api_stage("C03", "batch", tier, seed, negative=neg)
+    a = stages.api_stage("C03", "batch", tier, seed, negative=neg, limit=1200 if Q(tier) else None)
     b = stages.api_stage("C03", "batch", tier, seed, groups=("rist",), scale="2:256", scale_min=0,
                          limit=400 if Q(tier) else None)
     b.name = "api:batch@256"
@@ -172,11 +172,11 @@ def run_C16(tier, seed):
     res.append(stages.raw_cases_stage("C16", "random-strings", raw, seed))
     # hostile proof shapes against every statement shape and mode: release (overflow checks on) and dev profile
     res.append(stages.api_stage("C16", "hostile", tier, seed))
-    d = stages.api_stage("C16", "hostile", tier, seed, groups=("fm",) if q else ("fm", "rist"), profile="dev")
+    d = stages.api_stage("C16", "hostile", tier, seed, groups=("fm",) if q else ("fm", "rist"), profile="dev", limit=150 if q else None)
     d.name += "@dev"
     res.append(d)
     res.append(stages.api_stage("C16", "alter", tier, seed, groups=("rist",)))
-    res.append(stages.api_stage("C16", "batch", tier, seed, groups=("fm",), profile="dev"))
+    res.append(stages.api_stage("C16", "batch", tier, seed, groups=("fm",), profile="dev", limit=250 if q else None))
     big = stages.api_stage("C16", "batch", tier, seed, groups=("rist",), scale="2:256", scale_min=0, limit=60 if q else 600)
     big.name = "api:batch@256"
     res.append(big)
